@@ -189,7 +189,7 @@ def _context(fs: OutFs, spec_impls: Any) -> run.Context:
 
 # ------------------------------------------------------------------------------------------------- target drivers
 def run_target(target: str, fail_at: Any, fail_write_at: Any, bad_lookup: Any, bad_kind: Any, msgs: List[Any],
-               nested: bool) -> Tuple[Any, Sink, Sink, Steps, OutFs, SnippetMap]:
+               nested: bool, value_error: Any = False) -> Tuple[Any, Sink, Sink, Steps, OutFs, SnippetMap]:
     mod = importlib.import_module(f"aas_core_codegen.{target}.main")
     steps = Steps(fail_at, msgs, nested)
     saved: Dict[str, Any] = {}
@@ -209,7 +209,7 @@ def run_target(target: str, fail_at: Any, fail_write_at: Any, bad_lookup: Any, b
                 return "code\n", None
 
             setattr(mod, gen_name, gen_stub)
-        fs = OutFs(fail_write_at)
+        fs = OutFs(fail_write_at, fail_with_value_error=value_error)
         snippets = SnippetMap(real_snippets(target), bad_lookup, bad_kind)
         context = _context(fs, snippets)
         stdout, stderr = Sink(), Sink()
@@ -233,7 +233,7 @@ def dry_run(target: str) -> Tuple[int, int, int]:
 
 
 def check_target(target: str, fail_at: Any, fail_write_at: Any, bad_lookup: Any, bad_kind: Any, raw_msgs: List[Any],
-                 lens: List[int], nested: bool) -> str:
+                 lens: List[int], nested: bool, value_error: Any = False) -> str:
     n_calls, n_ops, n_lookups = dry_run(target)
     assume(-1 <= fail_at < n_calls)
     assume(-1 <= fail_write_at < n_ops)
@@ -244,7 +244,7 @@ def check_target(target: str, fail_at: Any, fail_write_at: Any, bad_lookup: Any,
     assume((fail_write_at == -1) | (bad_lookup == -1))
     msg_cps = [admissible_message(m, n) for m, n in zip(raw_msgs, lens)]
     rc, stdout, stderr, steps, fs, snippets = run_target(target, fail_at, fail_write_at, bad_lookup, bad_kind,
-                                                         raw_msgs, nested)
+                                                         raw_msgs, nested, value_error)
     if not isinstance(rc, int):
         fail("exit:status-is-not-an-integer:" + target)
     if steps.injected is not None:
@@ -526,11 +526,14 @@ def make_harness(params: Dict[str, Any]):
         nested = params["nested"]
         dry_run(target)
 
-        def harness(fail_at: int, fail_write_at: int, bad_lookup: int, bad_kind: bool, m0: str, m1: str) -> Any:
+        def harness(fail_at: int, fail_write_at: int, bad_lookup: int, bad_kind: bool, value_error: bool, m0: str, m1: str) -> Any:
             raw = [m0, m1][: len(lens)]
             if len(lens) < 2:
                 assume(len(m1) == 0)
-            return check_target(target, fail_at, fail_write_at, bad_lookup, bad_kind, raw, lens, nested)
+            if fail_write_at == -1:
+                assume(not value_error)
+            return check_target(target, fail_at, fail_write_at, bad_lookup, bad_kind, raw, lens, nested,
+                                True if value_error else False)
 
         return harness
     lens = params["lens"]
@@ -592,7 +595,7 @@ def describe(tier: str) -> Dict[str, Any]:
         "stubs": ["<target>_lib.*, <target>_tests.*, intermediate.errors_if_*: result shape derived from the real return "
                   "annotation, failure decided by a symbolic step index",
                   "jsonschema.main.generate / xsd.main._generate likewise",
-                  "pathlib.Path -> vf.stubs.OutPath (in-memory, failure injection at a symbolic operation index)",
+                  "pathlib.Path -> vf.stubs.OutPath (in-memory, failure injection at a symbolic operation index; the failure is an OSError or, symbolically, a UnicodeEncodeError as write_text raises for lone surrogates)",
                   "spec_impls -> snippets of the repository's test data with one symbolic bad lookup"],
         "assumptions": ["error messages satisfy write_error_report's preconditions, hold no whitespace-only line and no line "
                         "separator other than U+000A",
